@@ -144,7 +144,9 @@ def run_one(seed, tier, explicit=None):
                 env = dict(os.environ)
                 env['PYTHONHASHSEED'] = h
                 env['PYTHONDONTWRITEBYTECODE'] = '1'
-                p = subprocess.run([sys.executable, BATTERY, REPO, d, out, order[hi], mode], env=env,
+                carry = os.path.join(sim.W.workdir('carry'), 'synsets.pickle')
+                p = subprocess.run([sys.executable, BATTERY, REPO, d, out, order[hi], mode,
+                                    carry], env=env,
                                    capture_output=True, text=True, timeout=100)
                 if p.returncode != 0:
                     raise Violation(PROP, 'battery-crashed', 'battery process failed under '
@@ -153,6 +155,13 @@ def run_one(seed, tier, explicit=None):
                 res = json.load(open(out, encoding='utf-8'))
                 os.unlink(out)
                 evals += 3
+                if res.get('carried'):
+                    raise Violation(PROP, 'carried-argument', 'a function called with synset '
+                                    'objects that were pickled by another interpreter (other '
+                                    'hash seed) answers differently than with freshly fetched '
+                                    'objects of the same synsets: %s' % res['carried'][0]['call'],
+                                    {'hashseed': h, 'hashseed_of_pickler': H[0],
+                                     'diffs': res['carried']}, tags=[res['carried'][0]['call']])
                 if res['dump_before'] != res['dump_after']:
                     raise Violation(PROP, 'read-only-writes', 'read-only battery changed the '
                                     'database', {'hashseed': h})
